@@ -545,7 +545,9 @@ theorem ssaOne_calls (fm : String) (info : KindInfo) (kind : String) (pr : Owner
       · intro e
         split
         · exact .ret _
-        · leaf hP
+        · split
+          · exact .ret _
+          · leaf hP
 
 theorem updateGroup_calls (mks sys : List String) (children : List ChildRes) (ssa : Option String) (info : KindInfo)
     (kind : String) (pr : OwnerRef) (observed : List (String × J)) (hP : OnInfo P info) :
